@@ -11,10 +11,10 @@ extern "C" int LLVMFuzzerInitialize(int *, char ***) {
 }
 extern "C" int LLVMFuzzerTestOneInput(const uint8_t *data, size_t size) {
   std::string text = "prop " + g_prop + "\n" + sim::gen_scenario(data, size, g_prop);
-  Stats &st = stats(); st.about_to_run(text);
+  Stats &st = stats(); st.about_to_run(text); st.narrowed.clear();
   sim::RunResult r = sim::run_prop(text, g_prop);     // fresh world, clock, RNG and ledger baseline per iteration
   for (auto &kv : r.counters) st.count(kv.first, kv.second);
   st.record(text, r.nontrivial);
-  if (!r.v.ok) { msg("DETAIL %s\nFAIL %s\n", r.v.detail.substr(0, 1500).c_str(), r.v.sig.c_str()); st.fail(r.v.sig, text); __builtin_trap(); }
+  if (!r.v.ok) { msg("DETAIL %s\nFAIL %s\n", r.v.detail.substr(0, 1500).c_str(), r.v.sig.c_str()); st.fail(r.v.sig, st.narrowed.empty() ? text : st.narrowed); __builtin_trap(); }
   return 0;
 }
